@@ -30,6 +30,9 @@ def lean_const(v):
     return "(-((%d : K) / %d))" % (-v.numerator, v.denominator)
 
 
+APP_FUNCS = {}   # generated definition name -> list of its uninterpreted function parameters (filled by regen)
+
+
 def collect_funcs(items):
     """Uninterpreted function symbols used by a collection of Sym / Cond."""
     seen = set()
@@ -47,6 +50,8 @@ def collect_funcs(items):
         seen.add(e.key)
         if e.op in FUNC_TYPE:
             used.add(e.op)
+        if e.op.startswith("app:"):
+            used.update(APP_FUNCS.get(e.op[4:], []))
         for a in e.args:
             if isinstance(a, Sym):
                 stack.append(a)
@@ -94,6 +99,10 @@ class ExprEmitter:
         a = [self.term(x) for x in e.args if isinstance(x, Sym)]
         if op == "pi":
             return "pi"
+        if op.startswith("app:"):
+            name = op[4:]
+            fa = "".join(" " + f for f in APP_FUNCS.get(name, []))
+            return "(%s_v%s %s)" % (name, fa, " ".join(a))
         if op == "neg":
             return "(-%s)" % a[0]
         if op == "abs":
@@ -142,7 +151,23 @@ def build_tree(paths):
     if not T or not F:
         # one side was never explored (cannot happen with the DFS) -- keep it well-formed
         raise ValueError("one-sided decision")
-    return ("if", c, build_tree(T), build_tree(F))
+    tt, ff = build_tree(T), build_tree(F)
+    if COLLAPSE and tree_key(tt) == tree_key(ff):
+        # both outcomes of the decision lead to the same sub-tree: `if c then X else X` is X (c is decidable and total)
+        return tt
+    return ("if", c, tt, ff)
+
+
+COLLAPSE = False
+
+
+def tree_key(t):
+    if t[0] == "leaf":
+        r = t[1]
+        if isinstance(r, bool):
+            return ("b", r)
+        return ("l", tuple(_val(x).key for x in r))
+    return ("i", t[1].key, tree_key(t[2]), tree_key(t[3]))
 
 
 def tree_syms(t, acc):
@@ -158,20 +183,26 @@ def tree_syms(t, acc):
 
 
 class GenDef:
-    def __init__(self, name, params, paths, outnames=None, doc=""):
+    def __init__(self, name, params, paths, outnames=None, doc="", collapse=False):
         """params: list of variable names (strings); paths: output of tracer.explore(wrapper) where
         wrapper returns a bool or a flat list of Sym/numbers."""
+        global COLLAPSE
         self.name = name
         self.params = params
         self.paths = paths
         self.doc = doc
         self.outnames = outnames
-        self.tree = build_tree(paths)
+        COLLAPSE = collapse
+        try:
+            self.tree = build_tree(paths)
+        finally:
+            COLLAPSE = False
         items = tree_syms(self.tree, [])
         self.funcs = collect_funcs(items)
         self.is_bool = all(isinstance(r, bool) for _, r in paths)
         self.npaths = len(paths)
-        self.single = len(paths) == 1 and not self.is_bool and outnames != "list"
+        self.scalar = (not all(isinstance(r, bool) for _, r in paths)) and all((not isinstance(r, bool)) and len(r) == 1 for _, r in paths)
+        self.single = self.tree[0] == "leaf" and not self.is_bool and outnames != "list"
         if outnames == "list":
             self.outnames = None
 
@@ -205,7 +236,7 @@ class GenDef:
             out.append("/-- %s -/" % self.doc.replace("-/", "- /"))
         args = "".join(" " + f for f in self.funcs) + "".join(" " + p for p in self.params)
         if self.single:
-            vals = [_val(x) for x in self.paths[0][1]]
+            vals = [_val(x) for x in self.tree[1]]
             names = self.outnames or [str(i) for i in range(len(vals))]
             assert len(names) == len(vals), (self.name, names, len(vals))
             for n, v in zip(names, vals):
@@ -218,6 +249,8 @@ class GenDef:
         else:
             rty = "Bool" if self.is_bool else "List K"
             out.append(self.signature(self.name, rty) + "\n" + self._tree(self.tree, 2))
+            if not self.is_bool and self.scalar:
+                out.append("/-- the single value returned -/\n" + self.signature(self.name + "_v", "K") + "\n  (%s%s).headD 0" % (self.name, args))
         return "\n\n".join(out) + "\n"
 
     def dispatch_case(self, fnsrc):
@@ -230,9 +263,15 @@ class GenDef:
         return '  | "%s" => if a.length = %d then some (%s) else none' % (self.name, n, call)
 
 
+TOPIC_IMPORTS = {"Inter": ["Lookup", "Roots", "Affine"]}
+
+
 def emit_file(topic, defs, extra=""):
     """One Gen/<topic>.lean: the definitions plus the ℚ-dispatch used by the driver."""
-    t = [HEADER]
+    hdr = HEADER
+    for dep in TOPIC_IMPORTS.get(topic, []):
+        hdr = hdr.replace("import BezierVerif.Basic\n", "import BezierVerif.Basic\nimport BezierVerif.Gen.%s\n" % dep)
+    t = [hdr]
     for d in defs:
         t.append(d.text())
         t.append("")
